@@ -492,7 +492,8 @@ def gen_guided(rng, nsteps, pfault, deep=False):
         if deep:
             g.prelude_deep()
             nsteps += len(g.ops)
-        while len(g.ops) < nsteps and not g.dead:
+        # histories stop growing once the program holds 40 nodes (transformations clone whole trees)
+        while len(g.ops) < nsteps and not g.dead and len(g.w.pool) < 40:
             g.step(deep)
     finally:
         ops = list(g.ops)
@@ -501,7 +502,7 @@ def gen_guided(rng, nsteps, pfault, deep=False):
 
 
 def gen_cases(rng, tier, n=None, pfault=0.12, kind="history"):
-    n = n or (600 if tier == "quick" else 10000)
+    n = n or (600 if tier == "quick" else 5000)
     cases = []
     ct = class_table()
     old = signal.signal(signal.SIGALRM, _gen_alarm)
@@ -509,7 +510,7 @@ def gen_cases(rng, tier, n=None, pfault=0.12, kind="history"):
         for k in range(n):
             steps = rng.choice([5, 7, 9, 12]) if tier == "quick" else rng.choice([5, 8, 12, 16, 20])
             if k % 6 == 5:
-                cases.append({"kind": kind + "-blind", "input": Con("L18", ct, gen_history(rng, steps)), "digest_size": None, "opts": None})
+                cases.append({"kind": kind + "-blind", "input": Con("L18", ct, gen_history(rng, min(steps, 12))), "digest_size": None, "opts": None})
             elif k % 3 == 1:
                 cases.append({"kind": kind + "-deep", "input": Con("L18", ct, gen_guided(rng, max(4, steps - 3), pfault, deep=True)),
                               "digest_size": None, "opts": None})
